@@ -488,7 +488,10 @@ PROPS["C05"] = dict(
          "from VERIF_SEED, half over net.Pipe with TCP framing, half over a loopback UDP pair, first wire id 0 or "
          "preset near 65535 through the verif hook; replayed on the real PipelineTransport and through "
          "Pipeline.run_history; distinct = distinct case line; non-trivial = at least one exchange returned a "
-         "message. pipeline_eol: >65536 sequential exchanges on one real connection. pipeline_burst: "
+         "message; plus histories with write failures interleaved with live exchanges (a Write held inside "
+         "net.Conn.Write while later exchanges take ids, then failing: oversized query = the kernel's EMSGSIZE on the "
+         "real datagram socket, scripted EMSGSIZE / other errors on both transports; wire ids of ALL Write calls "
+         "recorded, failed ones included). pipeline_eol: >65536 sequential exchanges on one real connection. pipeline_burst: "
          "connections preset to 65536-k (k=0..3) and bursts of >= k+2 exchanges released together through the real "
          "transport, stale replies for ids 0/1, oracle only. pipeline_shared: bursts of exchanges called with "
          "the SAME payload slice (plus slices of their own, sequential reuse, ids near the end), all writers held "
@@ -506,7 +509,9 @@ PROPS["C05"] = dict(
     trusted=["C05: scripted server + conn wrapper in harness/cmd/implrun/c05.go; verif hook "
              "transport.VerifNewPipelineTransportPreset (copy of NewPipelineTransport that presets nextQid); "
              "pipeline_shared: wrapper around the dialled net.Conn whose Write waits until every exchange of the burst is "
-             "inside Write (harness/cmd/implrun/c05c.go)"],
+             "inside Write (harness/cmd/implrun/c05c.go); pipeline: the same wrapper holds / fails the Write of chosen "
+             "exchanges and cancels the caller of a failing Write (no transport retry: one exchange = one model thread; "
+             "retries run in pipeline_conc big=)"],
     level_note="partial: theorems cover every schedule of the model's atomic actions (addQueueC, write, read, "
                "getQueueC, non-blocking send, select arms, deleteQueueC, close) for any number of exchanges and any "
                "server behaviour; atomicity of the Go mutex/channel primitives and the one-step closeWithErr are "
